@@ -26,6 +26,12 @@ Definition dec_ds (b : bytes) : option (Z * Z * Z * bytes) :=
   let? (kt, r1) := dec_uint 2 b in let? (a, r2) := dec_uint 1 r1 in let? (d, r3) := dec_uint 1 r2 in Some (kt, a, d, r3).
 (* RFC 1035 3.3.9: preference (2), exchange *)
 Definition enc_mx (pref : Z) (exchange : list bytes) : option bytes := let? n := enc_labels exchange in Some (enc_uint 2 pref ++ n).
+(* decoding: the exchange is a whole name and nothing follows it; the root name (a single zero octet) is a name like any other
+   (RFC 7505: "MX 0 ." is the null MX) *)
+Definition dec_mx (b : bytes) : option (Z * list bytes) :=
+  let? (p, r) := dec_uint 2 b in
+  let? (ls, r') := dec_labels (S (length r)) r in
+  if zlen r' =? 0 then Some (p, ls) else None.
 (* RFC 1035 3.3.14: one or more <character-string>s; a single string of at most 255 octets *)
 Definition enc_txt (s : bytes) : option bytes := enc_opaque 0 255 s.
 (* RFC 4034 3.1: type covered (2), algorithm (1), labels (1), original TTL (4), expiration (4), inception (4), key tag (2),
